@@ -15,7 +15,7 @@ from vf.ref import ips
 LEVEL = "exploration"
 RULE = (
     "one case per write history (1-6 blocks; lengths 0,1,2 and k*65535-1..k*65535+2; addresses at 0, 0x1FF/0x200, 64K edges, "
-    "0x454F45..47, 2^24 edges and beyond, negative; copier header on/off; a third of the blocks placed relative to the previous one (adjacent, overlapping from below, one copier header apart); content incl. runs and 'EOF'/'PATCH'); "
+    "0x454F45..47, 2^24 edges and beyond, negative; copier header on/off; a third of the blocks placed relative to the previous one (adjacent, overlapping from below, one copier header apart), some blocks written again unchanged after other writes; content incl. runs and 'EOF'/'PATCH'); "
     "distinct by hash of (copier, [(address, length, content digest)]); non-trivial = at least one non-empty block reached the oracle"
 )
 ASSUMPTIONS = [
@@ -77,6 +77,9 @@ def gen_history(rng: random.Random, kmax: int) -> dict:
     writes = []
     for _ in range(rng.choice([1, 1, 2, 2, 3, 4, 6])):
         ln = gen_len(rng, kmax)
+        if len(writes) >= 2 and rng.random() < 0.2:
+            writes.append(list(rng.choice(writes[:-1])))      # the very same block written again after other writes
+            continue
         if writes and rng.random() < 0.35:
             # placed relative to the previous block: adjacent, overlapping (also starting lower), or exactly one copier header apart
             pa, pl, _ = writes[-1]
